@@ -16,6 +16,7 @@ import (
 func init() {
 	zzsv.Register("ZZ_C11_SharedEvaluator", ZZ_C11_SharedEvaluator)
 	zzsv.Register("ZZ_C11_SeparateEvaluators", ZZ_C11_SeparateEvaluators)
+	zzsv.Register("ZZ_C11_SharedObject", ZZ_C11_SharedObject)
 }
 
 type zzC11Obj struct {
@@ -167,6 +168,76 @@ func ZZ_C11_SeparateEvaluators(sv *zzsv.T) {
 				want = objs[i].Count > 1 // script 1 with a fresh evaluator: n is 1
 			}
 			sv.Assert("C11.separate.verdict", verdict[i] == want)
+		}
+	}
+}
+
+// ZZ_C11_SharedObject: different evaluators, used from different
+// goroutines, that were given the very same object with SetVariable (an
+// array, a hash, a string) and walk over it, index it and measure it: no
+// data race, and each run returns what a run alone returns.
+func ZZ_C11_SharedObject(sv *zzsv.T) {
+	scripts := []string{
+		"s = 0; foreach v in shared { s = s + v; } return s;",
+		"s = 0; foreach i, v in shared { foreach w in shared { s = s + w; } } return s;",
+		"function sum(a) { t = 0; foreach v in a { t = t + v; } return t; } return sum(shared) + len(shared) + shared[0];",
+		"s = 0; foreach k, v in sharedh { s = s + v; } return s + len(keys(sharedh));",
+		"s = \"\"; foreach c in shareds { s = s + c; } return len(s);",
+	}
+	k := sv.Choice("script", len(scripts))
+	sv.Note("script", scripts[k])
+	m := sv.Param("goroutines", 2, 3)
+	a := sv.Int64("a")
+	b := sv.Int64("b")
+	sv.Assume(a >= 0 && a <= 9 && b >= 0 && b <= 9)
+	arr := &object.Array{Elements: []object.Object{&object.Integer{Value: a}, &object.Integer{Value: b}, &object.Integer{Value: 3}}}
+	ka, kb := &object.String{Value: "a"}, &object.String{Value: "b"}
+	hsh := &object.Hash{Pairs: map[object.HashKey]object.HashPair{ka.HashKey(): {Key: ka, Value: &object.Integer{Value: a}}, kb.HashKey(): {Key: kb, Value: &object.Integer{Value: b}}}}
+	str := &object.String{Value: "héllo"}
+	var want int64
+	switch k {
+	case 0:
+		want = a + b + 3
+	case 1:
+		want = 3 * (a + b + 3)
+	case 2:
+		want = a + b + 3 + 3 + a
+	case 3:
+		want = a + b + 2
+	default:
+		want = 5
+	}
+	got := make([]int64, m)
+	failed := make([]bool, m)
+	for i := 0; i < m; i++ {
+		i := i
+		sv.Go(func() {
+			e := New(scripts[k])
+			e.SetVariable("shared", arr)
+			e.SetVariable("sharedh", hsh)
+			e.SetVariable("shareds", str)
+			if e.Prepare() != nil {
+				failed[i] = true
+				return
+			}
+			out, err := e.Execute(nil)
+			if err != nil {
+				failed[i] = true
+				return
+			}
+			if n, ok := out.(*object.Integer); ok {
+				got[i] = n.Value
+			} else {
+				failed[i] = true
+			}
+		})
+	}
+	sv.Wait()
+	for i := 0; i < m; i++ {
+		sv.Observe("run", failed[i])
+		sv.Assert("C11.sharedobject.noerror", !failed[i])
+		if !failed[i] {
+			sv.Assert("C11.sharedobject.value", got[i] == want)
 		}
 	}
 }
